@@ -95,7 +95,7 @@ def report(pid, spec, tier, seed, bld, queries, results, findings, pre, t0, a):
         print(line)
         for pp in r.get('vacuous', []) or []:
             print('    VACUITY-WARNING: witness not reached: %s' % pp['desc'])
-        if r['status'] in ('build-error', 'error'):
+        if r['status'] in ('build-error', 'error', 'oom'):
             print('   ', r.get('error', '')[:2000])
         if getattr(q, 'kf_probe', None):
             # probe of a listed finding: its designated obligations are expected to FAIL
